@@ -6,6 +6,8 @@ import Mathlib.Tactic.FieldSimp
 import Mathlib.Tactic.Linarith
 
 /-! Helper lemmas for C04 (rule selection, symmetry of the dimension tests, `Mag.map`). -/
+set_option linter.unusedSectionVars false
+
 namespace SciVerif.C04
 open SciVerif.C05
 
